@@ -26,13 +26,16 @@ import (
 	"sort"
 	"strings"
 	"testing"
+	"time"
 
 	"cosmossdk.io/log"
 	sdkmath "cosmossdk.io/math"
 	codectypes "github.com/cosmos/cosmos-sdk/codec/types"
 	sdk "github.com/cosmos/cosmos-sdk/types"
 	"github.com/ethereum/go-ethereum/crypto"
+	"github.com/palomachain/paloma/v2/util/libcons"
 	"github.com/palomachain/paloma/v2/verifharness/emit"
+	skyway "github.com/palomachain/paloma/v2/x/skyway"
 	evmtypes "github.com/palomachain/paloma/v2/x/evm/types"
 	"github.com/palomachain/paloma/v2/x/skyway/keeper"
 	"github.com/palomachain/paloma/v2/x/skyway/types"
@@ -239,6 +242,12 @@ func (h *hist) oracle(after string) {
 		cctx, _ := h.ctx.CacheContext()
 		before := h.jailed(cctx)
 		class, _ := h.submit(cctx, chainName, g.Subject, g.Sig)
+		// the subject's BytesToSign field is the submitter's to choose: blank it, garble it
+		forged := g.Subject
+		forged.BytesToSign = nil
+		h.submit(cctx, chainName, forged, g.Sig)
+		forged.BytesToSign = []byte("not the checkpoint, chosen by the submitter")
+		h.submit(cctx, chainName, forged, g.Sig)
 		now := h.jailed(cctx)
 		for _, v := range now {
 			if !has(before, v) {
@@ -307,10 +316,29 @@ func (h *hist) publish(nonce uint64) {
 		return
 	}
 	h.known[nonce] = *b
-	h.issued[hex.EncodeToString(b.BytesToSign)] = true
+	hx := hex.EncodeToString(b.BytesToSign)
+	h.issued[hx] = true
+	if _, ok := h.cpTriple[hx]; ok {
+		return
+	}
+	// bytes never seen before: they must be the batch's checkpoint under the deployment id in force
 	ext := b.ToExternal()
-	tr := triple{h.tidID(h.curTid), h.bodyID(ext), effEst(b.GasEstimate)}
-	h.note(b.BytesToSign, tr)
+	want, err := ext.GetCheckpoint(h.curTid)
+	if err != nil {
+		h.t.Fatal(err)
+	}
+	if hex.EncodeToString(want) != hx {
+		h.run.Violate("C13:bytes-to-sign-not-checkpoint", "stored BytesToSign is not the batch's checkpoint under the current deployment id",
+			map[string]any{"kind": "evidence-history", "history": h.replay, "nonce": nonce, "bytes_to_sign": hx, "checkpoint": hex.EncodeToString(want)})
+	}
+	h.note(b.BytesToSign, triple{h.tidID(h.curTid), h.bodyID(ext), effEst(b.GasEstimate)})
+}
+
+// republish re-reads every stored batch: whatever it shows as BytesToSign now has been published.
+func (h *hist) republish() {
+	for _, n := range h.liveNonces() {
+		h.publish(n)
+	}
 }
 
 func newHist(t *testing.T, run *emit.Run) *hist {
@@ -511,6 +539,60 @@ func (h *hist) opRemove() {
 	h.step(fmt.Sprintf("ORemove %d", n), class, map[string]any{"op": how, "nonce": n})
 }
 
+// opEndBlock: the real flow.  Validators send MsgEstimateBatchGas for a batch without estimate,
+// or time passes beyond the batch timeout; then the module's EndBlocker runs (processGasEstimates
+// elects the median and calls UpdateBatchGasEstimate, cleanupTimedOutBatches cancels).  What it did
+// is read back from the store and given to the model as OEstimate / ORemove steps.
+func (h *hist) opEndBlock() {
+	live := h.liveNonces()
+	before := map[uint64]uint64{}
+	for _, n := range live {
+		before[n] = h.stored(n).GasEstimate
+	}
+	how := "endblock:estimates"
+	if h.r.Intn(4) == 0 {
+		how = "endblock:timeout"
+		h.ctx = h.ctx.WithBlockTime(h.ctx.BlockTime().Add(11 * time.Minute))
+		h.in.Context = h.ctx
+	} else if len(live) > 0 {
+		n := live[h.r.Intn(len(live))]
+		k := 2 + h.r.Intn(4)
+		base := ests[h.r.Intn(len(ests))]
+		for _, v := range h.r.Perm(5)[:k] {
+			e := base + uint64(h.r.Intn(3))
+			_, _ = h.ms.EstimateBatchGas(h.ctx, &types.MsgEstimateBatchGas{
+				Nonce: n, TokenContract: h.token.GetAddress().Hex(), EthSigner: crypto.PubkeyToAddress(h.keys[h.regKey[v]].PublicKey).Hex(), Estimate: e,
+				Metadata: valsettypes.MsgMetadata{Creator: keeper.AccAddrs[v].String(), Signers: []string{keeper.AccAddrs[v].String()}},
+			})
+		}
+	}
+	cc := libcons.New(h.in.ValsetKeeper.GetCurrentSnapshot, h.in.Marshaler)
+	skyway.EndBlocker(h.ctx, h.in.SkywayKeeper, cc)
+	h.run.Count("op", how)
+	h.replay = append(h.replay, map[string]any{"op": how})
+	did := false
+	for _, n := range live {
+		b := h.stored(n)
+		if b != nil && b.GasEstimate != before[n] {
+			h.publish(n)
+			h.run.Count("endblock-effect", "estimate-elected")
+			h.step(fmt.Sprintf("OEstimate %d %s", n, emit.ZU(b.GasEstimate)), rOk, map[string]any{"op": "endblock elected estimate", "nonce": n, "estimate": b.GasEstimate})
+			did = true
+		}
+	}
+	for _, n := range live {
+		if h.stored(n) == nil {
+			h.run.Count("endblock-effect", "timed-out")
+			h.step(fmt.Sprintf("ORemove %d", n), rOk, map[string]any{"op": "endblock cancelled timed-out batch", "nonce": n})
+			did = true
+		}
+	}
+	if !did {
+		h.run.Count("endblock-effect", "nothing")
+		h.oracle(how)
+	}
+}
+
 func (h *hist) opSetTid() {
 	h.scid++
 	id := fmt.Sprintf("compass-%d", h.scid)
@@ -520,6 +602,7 @@ func (h *hist) opSetTid() {
 	}
 	ci, _ := h.in.EvmKeeper.GetChainInfo(h.ctx, chainName)
 	h.curTid = string(ci.SmartContractUniqueID)
+	h.republish()
 	h.run.Count("op", "redeploy")
 	h.step(fmt.Sprintf("OSetTid 1 %d", h.tidID(h.curTid)), rOk, map[string]any{"op": "redeploy", "unique_id": h.curTid})
 }
@@ -657,6 +740,12 @@ func (h *hist) opEvidence() {
 		sgTerm = "(0, (-1, 0, 0))"
 	}
 	subj.ChainReferenceId = chain
+	switch h.r.Intn(6) {
+	case 0:
+		subj.BytesToSign = nil
+	case 1:
+		subj.BytesToSign = []byte("chosen by the submitter")
+	}
 	var str triple
 	var scp []byte
 	if mchain == 1 {
@@ -765,9 +854,11 @@ func runEvidence(t *testing.T, run *emit.Run, n int) {
 			switch p := h.r.Intn(100); {
 			case p < 12:
 				h.opBuild()
-			case p < 28:
+			case p < 24:
 				h.opEstimate()
-			case p < 50:
+			case p < 32:
+				h.opEndBlock()
+			case p < 52:
 				h.opConfirm()
 			case p < 56:
 				h.opRemove()
